@@ -34,8 +34,9 @@ type Case struct {
 	Force        bool
 	AllowRunning bool
 	KeepTasks    bool
-	KillRefused  bool // the master refuses the KILL calls (HTTP 503): the destroy cannot be honoured
+	KillRefused  bool   // the master refuses the KILL calls (HTTP 503): the destroy cannot be honoured
 	PreFault     string // "" | executor | task-failed : a task of the environment fails before the destroy is requested
+	PreCleanup   bool   // before the destroy, CleanupTasks is requested with the ids of the environment's own (owned) tasks: a no-op
 	// ... or a failing creation
 	FailStage string // "" | template | detector | deploy-fail | deploy-noagent | configure | hook (a critical hook fails at before_CONFIGURE)
 	// a critical call fails at weight FailW of before_CONFIGURE (FailStage hook) resp. before_START_ACTIVITY (Target ERROR) while
@@ -107,7 +108,9 @@ func run(c Case) (res vh.Result) {
 	w.WriteWorkflow(wf, sb.String())
 
 	steps := []string{}
-	defer func() { res.History = map[string]interface{}{"workflow": sb.String(), "steps": steps, "world_log_tail": w.LogLines(120)} }()
+	defer func() {
+		res.History = map[string]interface{}{"workflow": sb.String(), "steps": steps, "world_log_tail": w.LogLines(120)}
+	}()
 	fail := func(sig, f string, a ...interface{}) vh.Result {
 		res.Violation = fmt.Sprintf(f, a...)
 		res.Signature = sig
@@ -366,6 +369,18 @@ func run(c Case) (res vh.Result) {
 	if c.PendingCall {
 		res.Classes = append(res.Classes, "pending-call")
 	}
+	if c.PreCleanup {
+		res.Classes = append(res.Classes, "cleanup-named-owned-tasks-before")
+		ctx, cancel := simworld.Ctx(30 * time.Second)
+		rep, err := w.Cli.CleanupTasks(ctx, &pb.CleanupTasksRequest{TaskIds: owned})
+		cancel()
+		steps = append(steps, fmt.Sprintf("CleanupTasks(%v) while the environment lives -> killed=%d err=%v", owned, len(rep.GetKilledTasks()), err))
+		for _, id := range owned {
+			if len(w.Master.KillsFor(id)) > 0 {
+				return fail("owned-task-killed-by-cleanup", "CleanupTasks naming task %s, owned by the live environment, sent it a KILL", id)
+			}
+		}
+	}
 	killMark := len(w.Master.Calls())
 	_, derr := w.Destroy(envId, c.Force, c.AllowRunning, c.KeepTasks, 60*time.Second)
 	steps = append(steps, fmt.Sprintf("destroy from %s force=%v allowRunning=%v keep=%v killRefused=%v -> err=%v", c.Target, c.Force, c.AllowRunning, c.KeepTasks, c.KillRefused, derr))
@@ -473,6 +488,7 @@ func gen(t *rapid.T) Case {
 	c.KeepTasks = rapid.IntRange(0, 3).Draw(t, "keep") == 0
 	c.KillRefused = rapid.IntRange(0, 9).Draw(t, "killRefused") == 0
 	c.PreFault = rapid.SampledFrom([]string{"", "", "", "executor", "task-failed"}).Draw(t, "preFault")
+	c.PreCleanup = rapid.IntRange(0, 3).Draw(t, "preCleanup") == 0
 	if c.Target == "ERROR" && rapid.Bool().Draw(t, "hookFault") {
 		c.HookFault = true
 		c.LateW = rapid.IntRange(-2, 1).Draw(t, "lateW")
@@ -499,8 +515,146 @@ func TestFixed(t *testing.T) {
 	}
 	vh.Fixed(t, prop, "failed-creation-critical-hook-with-call-awaited-later", Case{NTasks: 2, FailStage: "hook", HookFault: true, LateW: 0, FailW: 0, AwaitW: 3}, vh.Confirmed(run))
 	vh.Fixed(t, prop, "destroy-after-critical-hook-failed-with-call-awaited-later", Case{NTasks: 2, Target: "ERROR", HookFault: true, LateW: -1, FailW: 1, AwaitW: 2, PendingCall: true}, vh.Confirmed(run))
+	vh.Fixed(t, prop, "cleanup-naming-owned-tasks-then-destroy", Case{NTasks: 2, Target: "CONFIGURED", PreCleanup: true}, vh.Confirmed(run))
 	vh.Fixed(t, prop, "keep-tasks", Case{NTasks: 2, Target: "CONFIGURED", KeepTasks: true}, vh.Confirmed(run))
 	vh.Fixed(t, prop, "executor-lost-then-forced-destroy-keeping-tasks", Case{NTasks: 3, Target: "RUNNING", Force: true, KeepTasks: true, PreFault: "executor"}, vh.Confirmed(run))
 	vh.Fixed(t, prop, "task-failed-then-destroy", Case{NTasks: 2, Target: "CONFIGURED", PreFault: "task-failed"}, vh.Confirmed(run))
 	vh.Fixed(t, prop, "kills-refused", Case{NTasks: 2, Target: "CONFIGURED", KillRefused: true}, vh.Confirmed(run))
+}
+
+// Destroy requested while the environment is still being deployed: the creation is slowed down by tasks that take a while
+// to report TASK_RUNNING, the environment's id is read from the listing and a forced destroy is requested meanwhile.
+// Afterwards nothing of it is left: not listed, none of the tasks launched for it still owned, and every launched task
+// that is still alive has been asked to terminate at the latest after the next clean-up.
+type MidCase struct {
+	NTasks      int
+	OfferMs     int // how long the master takes to answer the request for offers
+	LaunchMs    int // how long a launched task takes to report TASK_RUNNING
+	DestroyAtMs int // when the destroy is requested, counted from the moment the environment shows up in the listing
+}
+
+func runMid(c MidCase) (res vh.Result) {
+	w, err := world()
+	if err != nil {
+		res.Inconclusive = "world: " + err.Error()
+		return
+	}
+	n := atomic.AddInt64(&caseSeq, 1)
+	wf := fmt.Sprintf("wm%dx%d", os.Getpid(), n)
+	var sb strings.Builder
+	fmt.Fprintf(&sb, "name: %s\ndefaults:\n  deploy_timeout: 8s\nroles:\n", wf)
+	cls := map[string]bool{}
+	for i := 0; i < c.NTasks; i++ {
+		cl := fmt.Sprintf("m%dx%dt%d", os.Getpid(), n, i)
+		cls[cl] = true
+		fmt.Fprintf(&sb, "  - name: t%d\n    constraints:\n      - attribute: machine_id\n        value: %s\n    task:\n      load: %s\n", i, hostNames[i%3], cl)
+		w.WriteTask(cl, simworld.TaskClassYAML(cl, "direct", ""))
+	}
+	w.WriteWorkflow(wf, sb.String())
+	steps := []string{}
+	defer func() {
+		res.History = map[string]interface{}{"workflow": sb.String(), "steps": steps, "world_log_tail": w.LogLines(120)}
+	}()
+	fail := func(sig, f string, a ...interface{}) vh.Result {
+		res.Violation = fmt.Sprintf(f, a...)
+		res.Signature = sig
+		simworld.Discard()
+		return res
+	}
+	mine := func(t *simworld.SimTask) bool { return cls[simworld.ClassOf(t)] }
+	w.Master.OnLaunch = func(t *simworld.SimTask) simworld.LaunchPlan {
+		if mine(t) {
+			return simworld.LaunchPlan{Delay: time.Duration(c.LaunchMs) * time.Millisecond}
+		}
+		return simworld.LaunchPlan{}
+	}
+	w.Master.OfferDelay = time.Duration(c.OfferMs) * time.Millisecond
+	defer func() { w.Master.OnLaunch = nil; w.Master.OfferDelay = 0 }()
+	taskMark := len(w.Master.Tasks())
+	created := make(chan error, 1)
+	go func() {
+		_, err := w.NewEnv(wf, nil, 60*time.Second)
+		created <- err
+	}()
+	// the environment shows up in the listing while it is being deployed
+	id := ""
+	deadline := time.Now().Add(10 * time.Second)
+	for id == "" && time.Now().Before(deadline) {
+		envs, _ := w.Envs()
+		for _, e := range envs {
+			if e.GetRootRole() == wf {
+				id = e.GetId()
+			}
+		}
+		if id == "" {
+			time.Sleep(5 * time.Millisecond)
+		}
+	}
+	if id == "" {
+		<-created
+		res.Inconclusive = "the environment never showed up in the listing while it was created"
+		simworld.Discard()
+		return
+	}
+	time.Sleep(time.Duration(c.DestroyAtMs) * time.Millisecond)
+	_, derr := w.Destroy(id, true, true, false, 90*time.Second)
+	cerr := <-created
+	steps = append(steps, fmt.Sprintf("environment %s listed while being created; forced destroy after %d ms -> err=%v; the creation returned err=%v", id, c.DestroyAtMs, derr, cerr))
+	res.NonTrivial = true
+	res.Classes = []string{"destroy-during-deployment"}
+	if crash := w.CoreCrash(); crash != "" {
+		return fail("core-crash", "the core died: %s", crash)
+	}
+	// whatever the two requests answered: nothing of the environment may be left once both have returned and a clean-up ran
+	time.Sleep(time.Duration(c.LaunchMs+300) * time.Millisecond)
+	envs, _ := w.Envs()
+	for _, e := range envs {
+		if e.GetRootRole() == wf && e.GetState() != "DONE" {
+			if derr != nil {
+				// the destroy was refused and the creation went through: a live environment is a legitimate outcome
+				w.Destroy(e.GetId(), true, true, false, 60*time.Second)
+				res.Classes = append(res.Classes, "destroy-refused")
+				return
+			}
+			return fail("still-listed", "the destroy request succeeded, yet environment %s is listed in state %s", e.GetId(), e.GetState())
+		}
+	}
+	ctx, cancel := simworld.Ctx(30 * time.Second)
+	_, err = w.Cli.CleanupTasks(ctx, &pb.CleanupTasksRequest{})
+	cancel()
+	ts, _ := w.TasksAPI()
+	locked := map[string]bool{}
+	for _, t := range ts {
+		if t.Locked {
+			locked[t.TaskId] = true
+		}
+	}
+	for _, t := range w.Master.Tasks()[taskMark:] {
+		if !mine(t) {
+			continue
+		}
+		if locked[t.ID] {
+			return fail("task-still-owned:destroy-during-deployment", "task %s launched for environment %s is still locked although the environment is gone", t.ID, id)
+		}
+		cur := w.Master.Task(t.ID)
+		if cur != nil && !cur.Terminal && len(w.Master.KillsFor(t.ID)) == 0 {
+			return fail("orphan-survives-cleanup:destroy-during-deployment", "task %s launched for environment %s is alive and was never asked to terminate, even after CleanupTasks (err=%v)", t.ID, id, err)
+		}
+	}
+	return
+}
+
+func TestDestroyDuringDeployment(t *testing.T) {
+	defer simworld.Discard()
+	vh.Check(t, prop, func(t *rapid.T) MidCase {
+		return MidCase{NTasks: rapid.IntRange(1, 3).Draw(t, "ntasks"), OfferMs: rapid.SampledFrom([]int{0, 300, 700}).Draw(t, "offerMs"), LaunchMs: rapid.SampledFrom([]int{300, 800, 1500}).Draw(t, "launchMs"),
+			DestroyAtMs: rapid.SampledFrom([]int{0, 20, 100, 400, 900}).Draw(t, "destroyAtMs")}
+	}, vh.Confirmed(runMid))
+}
+
+func TestDestroyDuringDeploymentFixed(t *testing.T) {
+	defer simworld.Discard()
+	vh.Fixed(t, prop, "destroy-while-waiting-for-offers", MidCase{NTasks: 2, OfferMs: 700, LaunchMs: 300, DestroyAtMs: 100}, vh.Confirmed(runMid))
+	vh.Fixed(t, prop, "destroy-while-tasks-start-up", MidCase{NTasks: 2, LaunchMs: 1000, DestroyAtMs: 100}, vh.Confirmed(runMid))
+	vh.Fixed(t, prop, "destroy-just-before-tasks-run", MidCase{NTasks: 3, LaunchMs: 600, DestroyAtMs: 400}, vh.Confirmed(runMid))
 }
